@@ -289,7 +289,8 @@ class DefaultPredictionStrategy(object):
             kernel = kernel * kernel_mask  # Unfortunately, this makes the kernel dense at the moment.
             train_labels_offset = settings.observation_nan_policy._fill_tensor(train_labels_offset)
             mean_cache = kernel.solve(train_labels_offset).squeeze(-1)
-            mean_cache[missing] = torch.nan  # Ensure that nobody expects these values to be valid.
+            # Ensure that nobody expects these values to be valid.
+            mean_cache = mean_cache.masked_fill(missing, torch.nan)
         if settings.detach_test_caches.on():
             mean_cache = mean_cache.detach()
 
